@@ -134,11 +134,16 @@ package align
 // one-byte replacement keep the length, so a match [start, end) of the transformed string lies within the row.
 // (With a byte >= 128, ToUpper re-encodes invalid UTF-8 as 3-byte U+FFFD and the offsets may exceed the row: outside every
 // property's alphabet, reported only.)
+// width of the window that the (deterministic) regular-expression search reports for the sequence held by s (0 when none);
+// uninterpreted: only used to relate the bag-level search to the per-sequence one
+//@ pure func c16_orfw(s *seq) int
+
 //@ func (*seq).LongestORF
 //@   props C16 C19
 //@   trusted regular-expression search over an upper-cased string copy of the residues (regexp, strings.ToUpper/Replace are not modelled); the receiver is only read
 //@   requires s != nil
 //@   ensures (start == -1) == (end == -1)
+//@   ensures end - start == c16_orfw(s) && c16_orfw(s) >= 0
 //@   ensures c19b_ascii(s) && start != -1 ==> 0 <= start && start + 6 <= end && end <= len(s.sequence)
 //@   modifies nothing
 
@@ -162,9 +167,13 @@ package align
 //@   requires forall r :: 0 <= r && r < nrows(sb) ==> c19b_ascii(row(sb, r))
 //@   ensures err == nil ==> orf != nil && fresh(orf) && fresh(orf.sequence)
 //@   ensures err == nil ==> len(orf.sequence) >= 6
+// the result is at least as long as the window reported for every row of the bag (forward strand)
+//@   ensures err == nil ==> forall r :: 0 <= r && r < nrows(sb) ==> len(orf.sequence) >= c16_orfw(row(sb, r))
+//@   ensures err != nil ==> forall r :: 0 <= r && r < nrows(sb) ==> c16_orfw(row(sb, r)) == 0
 //@   modifies nothing
 //@   loop 1
 //@     invariant !found ==> beststart == 0 && bestend == 0
+//@     invariant forall r :: 0 <= r && r < $i ==> bestend - beststart >= c16_orfw(row(sb, r)) && c16_orfw(row(sb, r)) >= 0
 //@     invariant err == nil && (found ==> bestseq != nil && allocated(bestseq) && 0 <= beststart && beststart + 6 <= bestend && bestend <= len(bestseq.sequence))
 //@     invariant found && fresh(bestseq) ==> fresh(bestseq.sequence) && allocated(bestseq.sequence)
 //@     decreases nrows(sb) - $i
